@@ -1,9 +1,10 @@
 /-
-  Model driver for C11: prints, for each `seg`/`tri`/`quad`/`cubic`/`arc`/`path` case, the same
+  Model driver for C11: prints, for each `seg`/`tri`/`quad`/`cubic`/`arc`/`path`/`fit`/`path_box` case, the same
   token sequence as `harness/src/bin/c11.rs`, computed by the model at `Float32` / `Float`.
 -/
 import LyonVerif.Drive.Common
 import LyonVerif.Model.Geom.Extrema
+import LyonVerif.Model.Algo.Aabb
 
 namespace Lyon.Drive.C11
 open Lyon Lyon.Drive
@@ -125,6 +126,32 @@ def fit (big : α) (v : Array String) : String :=
     "vertical", fXf (Fit.fitBox src dst .vertical),
     "fitted", fBox (Aabb.boundingBox big fitted), fBox (Aabb.fastBoundingBox big fitted)]
 
+/-- parse `n (B x y | L x y | Q cx cy x y | C … | E c)*` into the builder calls -/
+def parseCmds (v : Array String) : Nat → Nat → List (PCmd α) → List (PCmd α)
+  | 0, _, acc => acc.reverse
+  | fuel+1, i, acc =>
+    match v.getD i "" with
+    | "B" => parseCmds v fuel (i+3) (PCmd.begin (rdP v (i+1)) :: acc)
+    | "L" => parseCmds v fuel (i+3) (PCmd.lineTo (rdP v (i+1)) :: acc)
+    | "Q" => parseCmds v fuel (i+5) (PCmd.quadTo (rdP v (i+1)) (rdP v (i+3)) :: acc)
+    | "C" => parseCmds v fuel (i+7) (PCmd.cubicTo (rdP v (i+1)) (rdP v (i+3)) (rdP v (i+5)) :: acc)
+    | "E" => parseCmds v fuel (i+2) (PCmd.end_ (v.getD (i+1) "" == "1") :: acc)
+    | _ => acc.reverse
+
+/-- `path_box`: builder calls, then the sub-path rotation `k`.  The box and the fast box of the
+path, of the reversed path (`Path::reversed`), the box of the path with its sub-paths drawn in
+rotated order, and the union of the exact boxes of the segments (closing edges included). -/
+def pathBox (big : α) (v : Array String) : String :=
+  let n := rdNat v 0
+  let cmds : List (PCmd α) := parseCmds v n 1 []
+  let k := rdNat v (skipEvs v n 1)
+  let evs := PathBox.events cmds
+  let rev := PathBox.reversed evs
+  unwords ["box", fBox (PathBox.pathBox big evs), "fbox", fBox (PathBox.pathFastBox big evs),
+    "rev", fBox (PathBox.pathBox big rev), fBox (PathBox.pathFastBox big rev),
+    "rot", fBox (PathBox.pathBox big (PathBox.events (PathBox.rotateSubs k cmds))),
+    "union", fBox (PathBox.segUnion evs)]
+
 def families : List Family := [
   ⟨"seg", seg (α := Float32), seg (α := Float)⟩,
   ⟨"tri", tri (α := Float32), tri (α := Float)⟩,
@@ -132,7 +159,8 @@ def families : List Family := [
   ⟨"cubic", cubic (α := Float32), cubic (α := Float)⟩,
   ⟨"arc", arc (α := Float32), arc (α := Float)⟩,
   ⟨"path", path (Float32.ofBits 0x7f7fffff), path (Float.ofBits 0x47efffffe0000000)⟩,
-  ⟨"fit", fit (Float32.ofBits 0x7f7fffff), fit (Float.ofBits 0x47efffffe0000000)⟩ ]
+  ⟨"fit", fit (Float32.ofBits 0x7f7fffff), fit (Float.ofBits 0x47efffffe0000000)⟩,
+  ⟨"path_box", pathBox (Float32.ofBits 0x7f7fffff), pathBox (Float.ofBits 0x47efffffe0000000)⟩ ]
 
 end Lyon.Drive.C11
 
